@@ -157,7 +157,11 @@ func c12(r *mon.Run) {
 		pvList[k] = map[string]interface{}{"n": float64(k % 7), "i": float64(k)}
 	}
 	pvTrees := []*gen.Expr{gen.Func("length", gen.Current()), gen.Chain(nil, gen.StIndex(-1), gen.StField("i")), gen.Func("sum", gen.Chain(nil, gen.StListStar(), gen.StField("i"))),
-		gen.Chain(nil, gen.StFilter(gen.Cmp(">", gen.Field("n"), gen.LitJSON("5"))), gen.StField("i")), gen.Func("max_by", gen.Current(), gen.ExpRef(gen.Field("i"))), gen.Chain(nil, gen.StSliceS("-3", "", ""), gen.StField("i"))}
+		gen.Chain(nil, gen.StFilter(gen.Cmp(">", gen.Field("n"), gen.LitJSON("5"))), gen.StField("i")), gen.Func("max_by", gen.Current(), gen.ExpRef(gen.Field("i"))), gen.Chain(nil, gen.StSliceS("-3", "", ""), gen.StField("i")),
+		// whole-list functions over hundreds of elements (anything a function farms out must stay per call)
+		gen.Func("map", gen.ExpRef(gen.Field("i")), gen.Current()), gen.Func("sum", gen.Func("map", gen.ExpRef(gen.Field("n")), gen.Current())), gen.Chain(gen.Func("sort_by", gen.Current(), gen.ExpRef(gen.Field("n"))), gen.StListStar(), gen.StField("i")),
+		gen.Func("map", gen.ExpRef(gen.Func("map", gen.ExpRef(gen.Current()), gen.MultiList(gen.Field("i"), gen.Field("n")))), gen.Current()), gen.Func("length", gen.Func("map", gen.ExpRef(gen.Func("to_string", gen.Field("i"))), gen.Current())),
+		gen.Func("reverse", gen.Func("map", gen.ExpRef(gen.Field("i")), gen.Current())), gen.Func("join", gen.Raw(","), gen.Func("map", gen.ExpRef(gen.Func("to_string", gen.Field("i"))), gen.Current()))}
 	var baseDoc interface{} = c06BaseDoc()
 	rounds := tierPick(r, 7000, 100000)
 	prevProcs := runtime.GOMAXPROCS(0)
